@@ -253,3 +253,33 @@ Theorem C04_writable_header : forall o n dd m,
   Forall2 (fun p h => exists nm, np_label p = LName nm /\ h = HPort None None nm) (nd_ports dd) (vm_header m).
 Proof. exact writable_header. Qed.
 Print Assumptions C04_writable_header.
+
+(* Assignment instances (progress on C04_emit_roundtrip_full, assign clause). For EVERY list of pins - not only one
+   that comes from a reading, as in C04_assign_roundtrip - when _write_assignment writes (does not raise: the pins of
+   each side are one ascending run of one cable), the reader's assign on the two slices written gives exactly these
+   pins again, pin by pin; lifted to emit_assign: every `assign` item emit writes is read back as the (o wire, i
+   wire) pairs of the instance it was written for. With C04_assign_roundtrip: an instance the reader built is
+   always written (C04_emit_assign_inverse). *)
+Theorem C04_write_assign_reread : forall e pins co bo ci bi,
+  write_assign e pins = Some ((co, bo), (ci, bi)) ->
+  read_assign e (brk_atom co bo) (brk_atom ci bi) = Some pins.
+Proof. exact write_assign_reread. Qed.
+Print Assumptions C04_write_assign_reread.
+
+Theorem C04_emit_assign_reread : forall d prs lhs rhs,
+  emit_assign d prs = WOk (IAssign lhs rhs) ->
+  exists pins co bo ci bi,
+    assign_wires d prs = WOk pins /\ lhs = piece_atom d (co, bo) /\ rhs = piece_atom d (ci, bi) /\
+    read_assign (def_env d) (brk_atom co bo) (brk_atom ci bi) = Some pins.
+Proof. exact emit_assign_reread. Qed.
+Print Assumptions C04_emit_assign_reread.
+
+Theorem C04_emit_assign_inverse : forall d prs pins lhs rhs,
+  prs <> [] -> assign_wires d prs = WOk pins ->
+  atom_typed (def_env d) lhs -> atom_typed (def_env d) rhs ->
+  read_assign (def_env d) lhs rhs = Some pins ->
+  exists co bo ci bi,
+    emit_assign d prs = WOk (IAssign (piece_atom d (co, bo)) (piece_atom d (ci, bi))) /\
+    read_assign (def_env d) (brk_atom co bo) (brk_atom ci bi) = Some pins.
+Proof. exact emit_assign_inverse. Qed.
+Print Assumptions C04_emit_assign_inverse.
